@@ -173,6 +173,16 @@ func runC05(b *runner.Batch) {
 	var freed []string
 	for i := 0; i < nops && b.NViolations() == 0; i++ {
 		r := b.Rng
+		if i == nops/2 && b.Index%4 == 2 {
+			// the committee is re-elected through NEO votes, with no epoch tick in between: from the next block on the fees
+			// go to the new Alphabet nodes, as many as there are now (seeded change C05-11: receivers remembered per epoch)
+			if err := e.w.Reelect(world.Keys(b.Seed, b.Index, "committee-2", e.w.N)); err != nil {
+				b.Inconclusive("re-election: " + err.Error())
+				return
+			}
+			alpha, _, _ = e.alphaSigners(0)
+			b.Hit("committee-re-elected-between-registrations")
+		}
 		if r.IntN(6) == 0 {
 			if r.IntN(2) == 0 {
 				e.setFee("ContainerFee", runner.Pick(r, feePool))
